@@ -61,7 +61,13 @@ type modCtx struct {
 func (c *modCtx) fresh(prefix string) string {
 	for i := 0; ; i++ {
 		s := prefix + rapid.StringMatching(`[a-z]{1,3}[0-9]?`).Draw(c.t, prefix+"name")
-		if !c.names[s] && !reservedDefault[s] && !reservedCondMode[s] {
+		if prefix != "c" && rapid.IntRange(0, 3).Draw(c.t, prefix+"sep") == 0 {
+			// identifiers with the separators the lexer admits inside names
+			s += rapid.SampledFrom([]string{"-", ".", "/"}).Draw(c.t, prefix+"sepc") + rapid.StringMatching(`[a-z0-9]{1,2}`).Draw(c.t, prefix+"tail")
+		} else if prefix == "c" && rapid.IntRange(0, 3).Draw(c.t, prefix+"sep") == 0 {
+			s += "-" + rapid.StringMatching(`[a-z0-9]{1,2}`).Draw(c.t, prefix+"tail")
+		}
+		if !c.names[s] && !reservedDefault[s] && !reservedCondMode[s] && singleToken(s) {
 			c.names[s] = true
 			return s
 		}
@@ -200,9 +206,10 @@ func Modules(t *rapid.T, o ModOpts) *ModuleSet {
 			var nt []TypeDef
 			ne := map[int]bool{}
 			for ti, td := range f.Model.Types {
-				if !f.Extend[ti] && rapid.Bool().Draw(t, "decoyType") && !c.names[td.Name+"x"] {
-					c.names[td.Name+"x"] = true
-					d := TypeDef{Name: td.Name + "x"}
+				tsfx := rapid.SampledFrom([]string{"x", "-x", ".x", "/x", "_1"}).Draw(t, "decoyTypeSfx")
+				if !f.Extend[ti] && rapid.Bool().Draw(t, "decoyType") && !c.names[td.Name+tsfx] {
+					c.names[td.Name+tsfx] = true
+					d := TypeDef{Name: td.Name + tsfx}
 					// a relation in the decoy type named like relations of the real type
 					for _, r := range td.Rels {
 						d.Rels = append(d.Rels, Relation{Name: r.Name, Rw: &Rewrite{Kind: This}, Restr: []Restriction{{Type: "user"}}})
@@ -215,9 +222,10 @@ func Modules(t *rapid.T, o ModOpts) *ModuleSet {
 					// longer relation names sharing the prefix, declared first in the extension
 					var rels []Relation
 					for _, r := range td.Rels {
-						if rapid.Bool().Draw(t, "decoyRel") && !c.names[r.Name+"_all"] {
-							c.names[r.Name+"_all"] = true
-							rels = append(rels, Relation{Name: r.Name + "_all", Rw: &Rewrite{Kind: This}, Restr: []Restriction{{Type: "user"}}})
+						rsfx := rapid.SampledFrom([]string{"_all", "-edit", ".x", "/y", "2"}).Draw(t, "decoyRelSfx")
+						if rapid.Bool().Draw(t, "decoyRel") && !c.names[r.Name+rsfx] {
+							c.names[r.Name+rsfx] = true
+							rels = append(rels, Relation{Name: r.Name + rsfx, Rw: &Rewrite{Kind: This}, Restr: []Restriction{{Type: "user"}}})
 						}
 						rels = append(rels, r)
 					}
@@ -228,9 +236,10 @@ func Modules(t *rapid.T, o ModOpts) *ModuleSet {
 			f.Model.Types, f.Extend = nt, ne
 			var nc []Condition
 			for _, cd := range f.Model.Conds {
-				if rapid.Bool().Draw(t, "decoyCond") && !c.names[cd.Name+"x"] {
-					c.names[cd.Name+"x"] = true
-					nc = append(nc, Condition{Name: cd.Name + "x", Params: cd.Params, Expr: cd.Expr})
+				csfx := rapid.SampledFrom([]string{"x", "-x", "_2"}).Draw(t, "decoyCondSfx")
+				if rapid.Bool().Draw(t, "decoyCond") && !c.names[cd.Name+csfx] {
+					c.names[cd.Name+csfx] = true
+					nc = append(nc, Condition{Name: cd.Name + csfx, Params: cd.Params, Expr: cd.Expr})
 				}
 				nc = append(nc, cd)
 			}
